@@ -526,7 +526,13 @@ class HttpParser(abc.ABC, Generic[_MsgT]):
                     max_line_length = (
                         self.max_field_size if self._lines else self.max_line_size
                     )
-                    if len(self._tail) > max_line_length:
+                    # A trailing CR may still turn out to be (part of) the
+                    # line terminator, it does not count towards the limit.
+                    if SEP == b"\n":
+                        tail_len = len(self._tail.rstrip(b"\r"))
+                    else:
+                        tail_len = len(self._tail) - self._tail.endswith(b"\r")
+                    if tail_len > max_line_length:
                         raise LineTooLong(self._tail[:100] + b"...", max_line_length)
                     data = EMPTY
                     break
@@ -979,7 +985,14 @@ class HttpPayloadParser:
                     max_line_length = self._max_line_size
                     if self._chunk == ChunkState.PARSE_TRAILERS:
                         max_line_length = self._max_field_size
-                    if len(self._chunk_tail) > max_line_length:
+                    tail_len = len(self._chunk_tail)
+                    # A trailing CR may still turn out to be (part of) the
+                    # line terminator, it does not count towards the limit.
+                    if SEP == b"\r\n":
+                        tail_len -= self._chunk_tail.endswith(b"\r")
+                    elif self._chunk == ChunkState.PARSE_TRAILERS:
+                        tail_len = len(self._chunk_tail.rstrip(b"\r"))
+                    if tail_len > max_line_length:
                         raise LineTooLong(
                             self._chunk_tail[:100] + b"...", max_line_length
                         )
